@@ -35,27 +35,13 @@
 
 using namespace xv;
 
-// KNOWN_DEFECTS: library calls that abort the process on the unchanged tree (each abort costs seconds of sanitizer report
-// and a driver restart, and there are hundreds of such cases in the spaces).  They are skipped here - the result field is
-// "K:<name>" and xv/c09.py counts them - so that the rest of the space can be explored; xv/c09.py additionally runs ONE
-// unguarded canary case per entry (--no-guards) so that the check keeps reporting the defect until it is repaired.
-// See docs/c09.md, "Findings".
-//   date-canonical-negative-year   getCanonicalRepresentation of an xs:date with a negative year: heap-buffer-overflow
-//                                  (1 XMLCh) in XMLDateTime::getDateCanonicalRepresentation (buffer sized without the sign)
-//   list-canonical-empty           getCanonicalRepresentation of the empty list (valid for every list type without minLength):
-//                                  ListDatatypeValidator::getCanonicalRepresentation allocates 2*strlen = 0 XMLCh and stores the terminator
-static const char* KNOWN_DEFECTS[] = {"date-canonical-negative-year", "list-canonical-empty", nullptr};
+// KNOWN_DEFECTS: library calls that would abort the process and are therefore skipped (result field "K:<name>", counted by
+// xv/c09.py).  Empty: the two heap overflows found by this check (negative-year xs:date canonical form, canonical form of the
+// empty list) were repaired in /repo (a0c4de1) and are exercised like every other case again.
+static const char* KNOWN_DEFECTS[] = {nullptr};
 static bool g_guards = true;
-static const char* known_defect(DatatypeValidator* dv, int xs, const std::vector<XMLCh>& lex) {
-    if (!g_guards) return nullptr;
-    bool isDate = xs == XSValue::dt_date;
-    for (DatatypeValidator* b = dv; b && !isDate; b = b->getBaseValidator()) isDate = b->getType() == DatatypeValidator::Date;
-    if (isDate && lex[0] == chDash) return KNOWN_DEFECTS[0];
-    bool isList = false;   // a union delegates to the member that accepts the literal: the empty string is accepted by a list member only
-    for (DatatypeValidator* b = dv; b && !isList; b = b->getBaseValidator())
-        isList = b->getType() == DatatypeValidator::List || b->getType() == DatatypeValidator::Union;
-    if (isList && lex[0] == 0) return KNOWN_DEFECTS[1];
-    return nullptr;
+static const char* known_defect(DatatypeValidator*, int, const std::vector<XMLCh>&) {
+    return (g_guards && KNOWN_DEFECTS[0]) ? KNOWN_DEFECTS[0] : nullptr;
 }
 
 // ---------------------------------------------------------------- string coding
